@@ -93,6 +93,7 @@ def canonical_table(fn):
 
 def hazard(n):
     """the one feature of a name that takes it out of the fragment the theorems cover (priority order)"""
+    if len(urllib.parse.quote(n, safe="")) + len(".sql.tmp") > 255: return "long"
     if "\0" in n: return "nul"
     if "/" in n: return "slash"
     if ".sql" in n: return "dotsql"
@@ -127,6 +128,8 @@ def judge(ops, a, expected):
             inst, warm_mem = op, set()
             warm_disk |= put_later              # a canonical file with the provider's text that somebody else put there is seen by the next process
             put_later = set()
+            continue
+        if op == "anylength":
             continue
         if op.startswith("put:"):
             fn, text = put_of(op)
@@ -700,6 +703,21 @@ def run(ctx):
         ctx.sample({"ops": [o if name_of(o) is None else o.split(":")[0] + " " + repr(name_of(o)) for o in s], "impl": a[:160], "model": b[:160]})
 
     file_names(ctx, r.fork("file-names"))
+
+    # names whose file name the file system refuses (the model has no length limit: implementation only, judged by the same oracle)
+    longs = ["a" * 248, "a" * 300, "表" * 28, "s." + "t" * 250, "é" * 60]
+    lh = [["anylength", "new", op_get(n)] for n in longs] + [["anylength", "new", op_get("a" * 247), "new", op_get("a" * 247)], ["anylength", "nodisk", op_get("a" * 300)]]
+    expected.update(expected_results(ctx, {name_of(o) for h in lh for o in h if name_of(o) is not None} - set(expected)))
+    for h, a in zip(lh, E.run_impl([req(h) for h in lh])):
+        ctx.cov["evaluations"] += 1
+        j = judge(h, a, expected)
+        ctx.count("history:long-name:" + ("ok" if j is None else j[0]))
+        if j is not None:
+            if j[0] == "harness":
+                raise E.Infra("C17 harness: %s on %s" % (j[2], h))
+            pfam.report(ctx, signature(j[0], h, a), {"kind": "ops", "ops": h, "names": [name_of(o) for o in h], "observed": a[:300], "detail": j[2],
+                                                     "oracle": "c17: every completed request answers what the provider's text parses to, with or without a cache directory",
+                                                     "how_found": "stream long names (implementation only)"})
 
     # lineage requests
     stmts = lineage_statements(r, 600 if ctx.quick else 20000) + [(d, t) for d, t in pfam.corpus_statements() if t.upper().startswith(("SELECT", "INSERT", "WITH"))][:300]
